@@ -65,7 +65,26 @@ def run_compute(shard, mon, S, table):
                 continue
             produced += 1
             check_valid(mon, S, o.value, cc, table, w)
+        for k in range(n // 3):
+            # draws with pinned bank and account: a valid (also nationally) IBAN carrying the pins, or the overflow error
+            pb, pa = val("bank_code"), val("account_code")
+            pins = {c_: v_ for c_, v_ in (("bank_code", pb), ("account_code", pa)) if v_}
+            o = observe(S.IBAN.random, cc, random=Random(f"{env.seed()}/C09p/{cc}/{k}"), **pins)
+            mon.ev()
+            wp = {"country": cc, "pins": pins, "via": "random-pinned"}
+            if o.ok:
+                if any(getattr(o.value, c_) != v_ for c_, v_ in pins.items()):
+                    mon.viol(f"pinned_draw_ignores_pins:{cc}", {**wp, "iban": str(o.value)}, pins, {c_: getattr(o.value, c_) for c_ in pins})
+                check_valid(mon, S, o.value, cc, table, wp)
+            elif not o.is_a("GenerateRandomOverflowError"):
+                mon.viol(f"pinned_draw_raised:{o.exc_name}", wp, "IBAN or GenerateRandomOverflowError", o.brief())
         for k in range(n // 2):
+            if k % 4 == 0:
+                # a failing generation (character that cannot be part of the field, at a varying offset) in between
+                bad_a = val("account_code")
+                off = rng.randrange(max(1, len(bad_a)))
+                observe(S.IBAN.generate, cc, bank_code=val("bank_code"), account_code=bad_a[:off] + rng.choice("-_. ~") + bad_a[off + 1 :], branch_code=val("branch_code"))
+                observe(S.IBAN.generate, cc, bank_code=val("bank_code")[:-1] + "-", account_code=val("account_code"), branch_code=val("branch_code"))
             for ur in (True, False):
                 o = observe(S.IBAN.random, cc, random=Random(f"{env.seed()}/C09/{cc}/{k}"), use_registry=ur)
                 mon.ev()
